@@ -12,7 +12,7 @@ I = "guppylang-internals/src/guppylang_internals/"
 G = "guppylang/src/guppylang/"
 
 SEEDS: dict[str, dict[str, str]] = {
-    "C01": {"C01-1": "R-C01.3", "C01-2": "R-C01.6"},
+    "C01": {"C01-1": "R-C01.6", "C01-2": "R-C01.6"},
     "C05": {"C05-1": "R-C05.2", "C05-2": "R-C05.4", "C05-3": "R-C05.1"},
     "C06": {"C06-1": "R-C06.2", "C06-2": "R-C06.2", "C06-3": "R-C06.2", "C06-4": "R-C06.6", "C07-2": "R-C06.4"},
     "C07": {"C07-1": "R-C07.4", "C07-2": "R-C07.6", "C07-3": "R-C07.2"},
@@ -56,11 +56,17 @@ _cfgc = I + "compiler/cfg_compiler.py"
 _core = I + "compiler/core.py"
 MUTANTS["C01"] = [
     ("branch sum takes copyable instead of droppable", _cfgc,
-     "[v for v in sort_vars(row) if v.ty.droppable]", "[v for v in sort_vars(row) if v.ty.copyable]", "R-C01.3"),
+     "[v for v in sort_vars(row) if v.ty.droppable]", "[v for v in sort_vars(row) if v.ty.copyable]", "R-C01.6"),
+    ("non-entry blocks declare their inputs in signature order", _cfgc,
+     "inputs = sort_vars(bb.sig.input_row)", "inputs = list(bb.sig.input_row)", "R-C01.6"),
+    ("sort order puts non-droppable variables first", _cfgc,
+     "(not p1.ty.droppable, str(p1)) < (not p2.ty.droppable, str(p2))", "(p1.ty.droppable, str(p1)) < (p2.ty.droppable, str(p2))", "R-C01.6"),
+    ("sort order ignores the name", _cfgc,
+     "(not p1.ty.droppable, str(p1)) < (not p2.ty.droppable, str(p2))", "(not p1.ty.droppable,) < (not p2.ty.droppable,)", "R-C01.6"),
     ("regular outputs keep everything", _cfgc,
-     "outputs = [v for v in first if not v.ty.droppable]", "outputs = [v for v in first if True or not v.ty.droppable]", "R-C01.3"),
+     "outputs = [v for v in first if not v.ty.droppable]", "outputs = [v for v in first if True or not v.ty.droppable]", "R-C01.6"),
     ("outputs not sorted like successor inputs", _cfgc,
-     "outputs = sort_vars(outputs)", "outputs = list(outputs)", "R-C01.3"),
+     "outputs = sort_vars(outputs)", "outputs = list(outputs)", "R-C01.6"),
     ("return vars appended instead of prepended for predecessors", _cfgc,
      "pred.sig = Signature(pred.sig.input_row, [[*return_vars, *out_row]])", "pred.sig = Signature(pred.sig.input_row, [[*out_row]])", "R-C01.4"),
     ("struct store keeps stale aggregate wire", _core,
